@@ -2,7 +2,7 @@
 
 Model = a printer: election structure -> BLT text in many renderings; the real parser must be its left inverse.
 Two completely enumerated products of small menus:
-  semantic product   n in {1,2,3} x seats x every withdrawn subset (written as -n tokens or as a [withdrawn ...] option) x undeclared
+  semantic product   n in {1,2,3} x seats x every withdrawn subset (written as -n tokens, as one [withdrawn ...] option, or mixed: -n plus one option per further candidate) x undeclared
                      in {none, last} x ballot sets (every 1- and 2-line combination over strict rankings, weak rankings 'a=b',
                      ballots ranking only withdrawn candidates, empty ballots; a few 3-line sets) x multiplier patterns {1,2,7}
                      x ballot-id styles {none, '(b1)', '( b 1 )'}
@@ -98,6 +98,11 @@ def lines_of(st, wd_style='minus', id_style=None, use_nick=False):
     if st['wd']:
         if wd_style == 'minus':
             L[0] += ['-%d' % c for c in st['wd']]
+        elif wd_style == 'mixed':       # the first by -n, the others one [withdrawn x] option each
+            w = st['wd']
+            L[0] += ['-%d' % w[0]]
+            for c in w[1:]:
+                L.append(['[withdrawn', ref(c) + ']'])
         else:
             w = st['wd']
             L.append(['[withdrawn'] + [ref(c) for c in w[:-1]] + [ref(w[-1]) + ']'])
@@ -241,7 +246,7 @@ class C15(Check):
                                 variants.append(ballots + [(2, tuple(wd))])
                             variants.append([(3, ())] + ballots)
                             for vi, bl in enumerate(variants):
-                                for wd_style in (('minus', 'option') if wd else ('minus',)):
+                                for wd_style in ((('minus', 'option', 'mixed') if len(wd) > 1 else ('minus', 'option')) if wd else ('minus',)):
                                     for id_style in (None, 'tight', 'loose'):
                                         if id_style and mi:
                                             continue
